@@ -758,6 +758,37 @@ func (e *Env) trCall(n *ast.CallExpr) TV {
 	case "box":
 		v := arg(0)
 		return TV{e.w.box(v.T, v.Ty), tyAny}
+	case "has":
+		// has(m, k): map membership
+		m := arg(0)
+		mt, ok := m.Ty.Underlying().(*types.Map)
+		if !ok {
+			e.fail("has() of non-map")
+		}
+		ks, vs := e.sortOf(mt.Key()), e.sortOf(mt.Elem())
+		hasArr := e.heap(e.state, "M."+ks+"."+vs+".has", arraySort("Int", arraySort(ks, "Bool")))
+		return TV{And(Not(Eq(m.T, IntLit(0))), Select(Select(hasArr, m.T), e.coerce(arg(1), mt.Key()))), tyBool}
+	case "keysAre":
+		// keysAre(m, k1, ..., kn): the key set of map m is exactly {k1..kn}
+		m := arg(0)
+		mt, ok := m.Ty.Underlying().(*types.Map)
+		if !ok {
+			e.fail("keysAre() of non-map")
+		}
+		ks, vs := e.sortOf(mt.Key()), e.sortOf(mt.Elem())
+		hasArr := e.heap(e.state, "M."+ks+"."+vs+".has", arraySort("Int", arraySort(ks, "Bool")))
+		set := A("(as const "+arraySort(ks, "Bool")+")", tFalse)
+		for i := 1; i < len(n.Args); i++ {
+			set = Store(set, e.coerce(arg(i), mt.Key()), tTrue)
+		}
+		return TV{And(Not(Eq(m.T, IntLit(0))), Eq(Select(hasArr, m.T), set)), tyBool}
+	case "sprintf":
+		// sprintf(format, args): the uninterpreted formatting function (bridged to the verb-by-verb
+		// expansion at call sites with a constant format string)
+		f := e.w.ufunc("sprintfU", []string{"String", "Slice", arraySort("Int", "Any")}, "String")
+		h := e.heap(e.state, heapSliceName("Any"), arraySort("Int", arraySort("Int", "Any")))
+		sl := arg(1).T
+		return TV{A(f, arg(0).T, sl, Select(h, A("s_base", sl))), tyString}
 	case "refOf":
 		// the reference held by an interface value whose dynamic type is a pointer
 		return TV{A("pref", arg(0).T), types.NewPointer(types.NewStruct(nil, nil))}
